@@ -95,7 +95,8 @@ def run(ctx):
             ff = fen.split()
             f1 = " ".join(ff[:4] + ["1", "5"])
             f2 = " ".join(ff[:4] + [rng.choice(["37", "99", "0"]), rng.choice(["60", "1", "200"])])
-            lines = [poscmd(f1, ms[:k], False), poscmd(f2, ms[:k + 1], False), poscmd(f1, ms[:k + 2], False)]
+            # (the session ENDS on the other counters: only the final state is dumped)
+            lines = [poscmd(f1, ms[:k], False), poscmd(f2, ms[:k + 1], False)] + ([poscmd(f2, ms[:k + 2], False)] if rng.random() < 0.5 else [])
         else:                # the same, then the game shrinks again and is extended differently
             bad = rng.choice(["0000", "h9h8", "e1e9"])
             lines = [poscmd(fen, ms[:k]), poscmd(fen, ms[:k + 1] + [bad] + ms[k + 1:k + 2]), poscmd(fen, ms[:k + 3]), poscmd(fen, ms[:k + 1]),
